@@ -153,7 +153,8 @@ def run_tlc(module, cfg, workers=None, simulate=None, depth=None, tlc_seed=None,
         cmd += ["-depth", str(depth or 100)]
     if tlc_seed is not None:
         cmd += ["-seed", str(tlc_seed)]
-    if coverage:
+    covdir = os.environ.get("VERIF_TLC_COVERAGE")     # bin/coverage_audit: per-action counts of every TLC run
+    if coverage or covdir:
         cmd += ["-coverage", "1"]
     if deadlock is False:
         cmd += ["-deadlock"]
@@ -173,6 +174,15 @@ def run_tlc(module, cfg, workers=None, simulate=None, depth=None, tlc_seed=None,
         shutil.rmtree(meta, ignore_errors=True)
     res.wall = time.time() - t0
     out = p.stdout
+    if covdir:
+        try:
+            os.makedirs(covdir, exist_ok=True)
+            cov = [l for l in out.splitlines() if l.startswith("<") and " of module " in l]
+            with open(os.path.join(covdir, "%s__%s__%d_%d.cov" % (module, os.path.basename(cfg).replace(".cfg", ""),
+                                                                   os.getpid(), int(time.time() * 1000) % 10 ** 9)), "w") as f:
+                f.write("\n".join(cov) + "\n")
+        except OSError:
+            pass
     res.stdout = out if keep_stdout else out[-20000:]
     seen = set()
     for line in out.splitlines():
